@@ -212,23 +212,34 @@ Qed.
    run_net (Model/Conv.v, lists of integers) computes for every node the alive mask of xtr_net net x and, on every valid index,
    the tensors of ceval_pit and ceval_exp of that concrete network (Inv3 = masks equal, `agreeT` on both tensors), and
    xtr_net net x is well-formed (cwf), so C01_export_sound_concrete applies to it.
-   PARTIAL: node kinds covered by xwf: input (1-D), Conv1d full/depthwise with its causal pad (fold_bn on/off, stride, dilation,
-   time masks), Linear, ReLU/ReLU6, identity/dropout, flatten of a 1-D tensor, residual add, channel concat.  Missing: Conv2d /
-   2-D tensors (needs the zero-padding clip of 2-D maps in L2), max pooling, stand-alone pads. *)
-Theorem C01_run_net_sound_partial : forall net x, xwf net x ->
+   Total over the xnode language: xwf only asks for shape consistency (rectangular input, kinds and sizes of operands agree,
+   parameter tensors have the declared shapes, kept_lags = export_lags, window >= 1, stride >= 1) for every node kind:
+   1-D / 2-D input, Conv1d (with its causal pad) and Conv2d (zero padding int / 'same', stride, dilation), each full or depthwise,
+   fold_bn on/off, Linear, ReLU/ReLU6, identity/dropout, max pooling 1-D/2-D, stand-alone pad, flatten 1-D/2-D, add, channel concat. *)
+Theorem C01_run_net_sound : forall net x, xwf net x ->
   let st := run_net net x in let cn := xtr_net net x in
   cwf Z 0%Z (tchan x) cn /\ length st = length net /\ length cn = length net /\
   forall i, i < length net ->
     Inv3 (nth i st xdef) (nth i (calive_net Z cn) []) (nth i (ceval_pit Z 0%Z 1%Z Z.add Z.mul cn (emb x)) [])
          (nth i (ceval_exp Z 0%Z Z.add Z.mul cn (emb x)) []).
 Proof. exact run_net_sound. Qed.
+(* former name (when only the 1-D fragment was proved) *)
+Corollary C01_run_net_sound_partial : forall net x, xwf net x ->
+  let st := run_net net x in let cn := xtr_net net x in
+  cwf Z 0%Z (tchan x) cn /\ length st = length net /\ length cn = length net /\
+  forall i, i < length net ->
+    Inv3 (nth i st xdef) (nth i (calive_net Z cn) []) (nth i (ceval_pit Z 0%Z 1%Z Z.add Z.mul cn (emb x)) [])
+         (nth i (ceval_exp Z 0%Z Z.add Z.mul cn (emb x)) []).
+Proof. exact C01_run_net_sound. Qed.
 
 Example C01_run_net_wf :
   xwf [XIn; XConv1 0 false false [[[1; 2]]; [[3; 4]]]%Z None 1 2 1 1 [true; false] [false; true] 1 1; XAct 1 false; XFlatten 2;
        XLin 3 true [[5; 6; 7; 8; 9; 1]]%Z (Some [7]%Z) 6 [true]] (TS1 [[1; 2; 3]]%Z).
 Proof.
   unfold xwf. cbn. unfold cshape3, cshape2, cbias_ok, cbn_ok. cbn.
-  repeat split; try reflexivity; try discriminate; try lia; eauto.
+  split; [left; exists [[1; 2; 3]]%Z, 3; split; [reflexivity|repeat constructor]|].
+  split; [|split; [lia|split; [split; [lia|left; repeat split; reflexivity]|]]].
+  all: repeat split; try reflexivity; try discriminate; try lia; eauto.
   all: intros; repeat match goal with H : _ < _ |- _ => revert H end;
        try (match goal with |- context [match ?c with _ => _ end] => destruct c as [|[|c]] end); intros; try reflexivity; try lia; try discriminate.
   - destruct ci; [reflexivity|lia].
@@ -277,4 +288,5 @@ Print Assumptions C01_dead_out_zero_fold.
 Print Assumptions C01_zero_preserving_pool2d.
 Print Assumptions C01_export_sound_concrete.
 Print Assumptions C01_export_sound_concrete_output.
+Print Assumptions C01_run_net_sound.
 Print Assumptions C01_run_net_sound_partial.
